@@ -81,9 +81,29 @@ Lemma load_form_list : forall xs,
   (fix go (l : list obj) : res (list obj) :=
      match l with
      | [] => Ok []
-     | a :: r => bind (load_form a) (fun b => bind (go r) (fun bs => Ok (b :: bs)))
-     end) xs = map_res load_form xs.
+     | a :: r => bind (match a with
+                       | Sym s => if is_keyword s then Ok a else Ok (quote a)
+                       | _ => load_form a
+                       end) (fun b => bind (go r) (fun bs => Ok (b :: bs)))
+     end) xs = map_res elem_form xs.
 Proof. induction xs as [|a r IH]; [reflexivity|]. cbn [map_res]. rewrite <- IH. reflexivity. Qed.
+
+Lemma load_form_L : forall xs, load_form (L xs) = bind (map_res elem_form xs) (fun fs => Ok (L (Sym "list" :: fs))).
+Proof. intro xs. cbn [load_form]. rewrite load_form_list. reflexivity. Qed.
+
+Lemma load_form_Dot : forall xs tl,
+  load_form (Dot xs tl) =
+  bind (map_res elem_form xs) (fun fs => bind (elem_form tl) (fun ft =>
+    match rev fs with
+    | [] => Err EBadForm
+    | lastf :: revhead =>
+        let c := L [Sym "cons"; lastf; ft] in
+        match revhead with
+        | [] => Ok c
+        | _ => Ok (L [Sym "append"; L (Sym "list" :: rev revhead); c])
+        end
+    end)).
+Proof. intros xs tl. cbn [load_form]. rewrite load_form_list. reflexivity. Qed.
 
 Lemma eval_list : forall e xs,
   (fix evs (l : list obj) : res (list obj) :=
@@ -93,12 +113,12 @@ Lemma eval_list : forall e xs,
      end) xs = map_res (eval e) xs.
 Proof. induction xs as [|a r IH]; [reflexivity|]. cbn [map_res]. rewrite <- IH. reflexivity. Qed.
 
-(* what the theorem says about one value *)
+(* what the theorem says about one value as an element of another (for everything but a symbol elem_form is load_form) *)
 Definition reloads (v : obj) : Prop :=
-  exists f, load_form v = Ok f /\ forall e, env_ok e -> eval e f = Ok v.
+  exists f, elem_form v = Ok f /\ forall e, env_ok e -> eval e f = Ok v.
 
 Lemma reloads_all : forall xs, Forall (fun v => loadable_in v = true -> reloads v) xs -> forallb loadable_in xs = true ->
-  exists fs, map_res load_form xs = Ok fs /\ forall e, env_ok e -> map_res (eval e) fs = Ok xs.
+  exists fs, map_res elem_form xs = Ok fs /\ forall e, env_ok e -> map_res (eval e) fs = Ok xs.
 Proof.
   induction xs as [|a r IH]; intros HF Hl.
   - exists []. split; [reflexivity|]. intros; reflexivity.
@@ -363,16 +383,18 @@ Proof.
   - exists T. split; [reflexivity|]. intros; reflexivity.
   - eexists. split; [reflexivity|]. intros; reflexivity.
   - (* Big *)
-    cbn [load_form]. destruct (is_int64 z); eexists; (split; [reflexivity|]); intros; reflexivity.
+    cbn [elem_form load_form]. destruct (is_int64 z); eexists; (split; [reflexivity|]); intros; reflexivity.
   - eexists. split; [reflexivity|]. intros; reflexivity.
   - eexists. split; [reflexivity|]. intros; reflexivity.
-  - (* Sym *)
-    exists (Sym s). split; [reflexivity|]. intros e He. apply eval_sym; assumption.
+  - (* Sym: a keyword stands for itself, any other symbol is quoted *)
+    cbn [elem_form]. destruct (is_keyword s) eqn:K; eexists; (split; [reflexivity|]); intros e He.
+    + cbn [eval]. rewrite K. reflexivity.
+    + reflexivity.
   - (* L *)
     cbn [loadable_in] in Hl. apply andb_true_iff in Hl. destruct Hl as [Hne Hall].
     destruct (reloads_all xs H Hall) as (fs & Efs & Evs).
     exists (L (Sym "list" :: fs)). split.
-    + cbn [load_form]. rewrite load_form_list, Efs. reflexivity.
+    + cbn [elem_form]. rewrite load_form_L, Efs. reflexivity.
     + intros e He. cbn [eval]. cbn [String.eqb Ascii.eqb Bool.eqb]. rewrite eval_list, (Evs e He). cbn [bind].
       unfold apply_fn. cbn [String.eqb Ascii.eqb Bool.eqb]. destruct xs; [discriminate|reflexivity].
   - (* Dot *)
@@ -382,7 +404,7 @@ Proof.
     destruct (reloads_all xs H Hall) as (fs & Efs & Evs).
     destruct (IHv Hltl) as (ft & Eft & Evt).
     destruct (exists_last' xs Hxs) as (xs' & a & Exs).
-    assert (Hlenfs : List.length fs = List.length xs) by (exact (map_res_length load_form xs fs Efs)).
+    assert (Hlenfs : List.length fs = List.length xs) by (exact (map_res_length elem_form xs fs Efs)).
     assert (Hfs : fs <> []) by (intro; subst fs; rewrite Exs in Hlenfs; rewrite app_length in Hlenfs; cbn in Hlenfs; lia).
     destruct (exists_last' fs Hfs) as (fs' & fa & Efs').
     assert (Hev : forall e, env_ok e -> map_res (eval e) fs' = Ok xs' /\ eval e fa = Ok a).
@@ -396,7 +418,7 @@ Proof.
         destruct (map_res (eval e) (fs' ++ [fa])) as [ys|] eqn:E; [|discriminate]. cbn [bind] in Evs.
         injection Evs as -> ->. injection Hl1 as Hl1. destruct (IH xs' Hl1 eq_refl) as [I1 I2].
         rewrite I1. split; [reflexivity|exact I2]. }
-    cbn [load_form]. rewrite load_form_list, Efs, Eft. cbn [bind]. rewrite Efs'. rewrite rev_app_distr. cbn [rev app].
+    cbn [elem_form]. rewrite load_form_Dot, Efs, Eft. cbn [bind]. rewrite Efs'. rewrite rev_app_distr. cbn [rev app].
     destruct (rev fs') as [|rf rfs] eqn:Erev.
     + (* a single element before the tail *)
       assert (fs' = []) by (apply (f_equal (@rev obj)) in Erev; rewrite rev_involutive in Erev; exact Erev). subst fs'.
@@ -449,16 +471,18 @@ Qed.
 Theorem reload_loadable : forall v, loadable v = true -> reload v = Ok v.
 Proof.
   intros v H. unfold reload.
-  assert (R : reloads v).
-  { destruct v; try (apply reloads_in; exact H).
-    cbn [loadable] in H. apply andb_true_iff in H. destruct H as [Hl _].
-    eexists. split; [reflexivity|]. intros e He. apply eval_lambda_form. exact Hl. }
+  assert (R : exists f, load_form v = Ok f /\ forall e, env_ok e -> eval e f = Ok v).
+  { destruct v; try exact (reloads_in _ H).
+    - (* a symbol on its own *)
+      eexists. split; [reflexivity|]. intros e He. apply eval_sym; assumption.
+    - cbn [loadable] in H. apply andb_true_iff in H. destruct H as [Hl _].
+      eexists. split; [reflexivity|]. intros e He. apply eval_lambda_form. exact Hl. }
   destruct R as (f & Ef & Ev). rewrite Ef. cbn [bind]. apply Ev. apply global_env_ok.
 Qed.
 
 (* ---- non-vacuity: the guard admits nested values of every kind ---- *)
 Definition ex_rich : obj :=
-  L [Fix 1; Str "s"; Sym ":k"; Sym "fixnum"; Big 5; Big 9223372036854775808; Atom "ratio" "3/4"; Atom "character" "#\a";
+  L [Fix 1; Str "s"; Sym ":k"; Sym "fixnum"; Sym "abc"; L [Sym "quote"; Sym "let"]; Dot [Sym "a"] (Sym "b"); Big 5; Big 9223372036854775808; Atom "ratio" "3/4"; Atom "character" "#\a";
      Dot [Fix 2; L [Fix 3]] (Fix 4);
      Vec [Sym "a"; L [Fix 1; Vec [Fix 2] T true]; Dot [Fix 1] (Fix 2)] T true;
      Arr [2; 2] [Fix 1; Fix 2; Sym "b"; Nil] T true;
@@ -470,11 +494,6 @@ Lemma ex_lambda_doc : loadable (Lam [Sym "x"] "doubles x" [L [Sym "*"; Sym "x"; 
 Proof. vm_compute. reflexivity. Qed.
 
 (* ---- outside the guard the faithful model does NOT meet the specification: the known findings ---- *)
-Lemma symbol_unquoted_refuted :
-  loadable (L [Sym "a"; Sym "b"]) = false /\ load_form (L [Sym "a"; Sym "b"]) = Ok (L [Sym "list"; Sym "a"; Sym "b"])
-  /\ reload (L [Sym "a"; Sym "b"]) = Err (EUnbound "a").
-Proof. repeat split; vm_compute; reflexivity. Qed.
-
 Lemma adjustable_lost_refuted :
   loadable (Vec [Fix 1; Fix 2] T false) = false /\ reload (Vec [Fix 1; Fix 2] T false) = Ok (Vec [Fix 1; Fix 2] T true).
 Proof. repeat split; vm_compute; reflexivity. Qed.
